@@ -12,7 +12,9 @@ BaseSeq == <<
   <<Row(10, 0, -1, -1, -1, -1, FALSE, 5)>>,
   <<Row(10, 0, 11, 11, -1, -1, TRUE, 5), Row(11, 0, 10, 10, -1, -1, TRUE, 5)>>,
   <<Row(10, 0, -1, -1, -1, -1, FALSE, 5), Row(12, 0, -1, -1, 10, -1, FALSE, 5)>>,
-  <<Row(10, 0, 11, 11, -1, -1, TRUE, 5), Row(11, 0, 10, 10, -1, -1, TRUE, 5), Row(12, 0, -1, -1, 10, 11, FALSE, 5), Row(20, 1, -1, -1, -1, -1, FALSE, 7)>> >>
+  <<Row(10, 0, 11, 11, -1, -1, TRUE, 5), Row(11, 0, 10, 10, -1, -1, TRUE, 5), Row(12, 0, -1, -1, 10, 11, FALSE, 5), Row(20, 1, -1, -1, -1, -1, FALSE, 7)>>,
+  \* three unrelated adults sharing a flat (no pointers at all: a fault in one row is not noticed through another row's pointer)
+  <<Row(10, 0, -1, -1, -1, -1, FALSE, 5), Row(11, 0, -1, -1, -1, -1, FALSE, 5), Row(12, 0, -1, -1, -1, -1, FALSE, 5)>> >>
 DCols == {"alter", "bruttolohn_m", "kind"}       \* an int, a float and a bool column
 \* Row orders of the four-row base table: Valid does not depend on the order of rows, so every fault must be rejected in
 \* every order (members of one household need not be adjacent).  Order 1 is the identity.
